@@ -30,6 +30,7 @@ BUILTIN_ATTRS = ['count', 'index', '__len__', '__class__', 'keys', 'items', 'app
 def corpus():
     t = {'k': 'dict', 'od': False, 'id': 1, 'items': [['a', {'k': 'dict', 'od': False, 'id': 2, 'items': [['b', None]]}]]}
     lst = {'k': 'list', 'id': 1, 'items': [{'k': 'dict', 'od': False, 'id': 2, 'items': [['k0', 5]]}, 7]}
+    e = {'k': 'dict', 'od': False, 'id': 1, 'items': [['', {'k': 'dict', 'od': False, 'id': 2, 'items': [['a', 'under-empty'], ['', 3]]}], ['a', 'top-level a']]}
     return [
         {'target': t, 'style': 'text', 'text': 'a.b.c', 'star': True},
         {'target': t, 'style': 'text', 'text': 'a.b', 'star': True},
@@ -46,6 +47,14 @@ def corpus():
         {'target': lst, 'style': 'parts', 'parts': [{'v': 'index'}, {'v': 0}]},
         {'target': t, 'style': 'text', 'text': '', 'star': True},
         {'target': t, 'style': 'text', 'text': 'a..b', 'star': True},
+        # the empty string is a segment like any other, also in FIRST position ('.a' is the two segments '' and 'a')
+        {'target': t, 'style': 'text', 'text': '.a', 'star': True},
+        {'target': t, 'style': 'text', 'text': '.a.b', 'star': True},
+        {'target': e, 'style': 'text', 'text': '.a', 'star': True},
+        {'target': e, 'style': 'text', 'text': '.a.zz', 'star': True},
+        {'target': e, 'style': 'text', 'text': '.', 'star': True},
+        {'target': e, 'style': 'text', 'text': 'a.', 'star': True},
+        {'target': e, 'style': 'parts', 'parts': [{'v': ''}, {'v': 'a'}]},
     ]
 
 
